@@ -55,10 +55,12 @@ let snapshot s =
               Buffer.add_string b (Printf.sprintf " %d:%s:%s:%s:%d" (int_of_nat i) (str_of_n nd.fn_so) (str_of_n nd.fn_key) (str_of_n nd.fn_val)
                                      (if nd.fn_mark then 1 else 0))) (flist s);
   Buffer.add_string b " |";
-  List.iteri (fun j i -> if j < 64 then begin
-                 let nd = fget s.fs_heap i in
-                 Buffer.add_string b (Printf.sprintf " %d:%s:%s:%s:%d:%d" (int_of_nat i) (str_of_n nd.fn_so) (str_of_n nd.fn_key) (str_of_n nd.fn_val)
-                                        (match nd.fn_next with Some x -> int_of_nat x | None -> -1) (if nd.fn_mark then 1 else 0)) end) s.fs_free;
+  List.iter (fun x -> match x with
+      | None -> Buffer.add_string b " ?"
+      | Some i ->
+        let nd = fget s.fs_heap i in
+        Buffer.add_string b (Printf.sprintf " %d:%s:%s:%s:%d:%d" (int_of_nat i) (str_of_n nd.fn_so) (str_of_n nd.fn_key) (str_of_n nd.fn_val)
+                               (match nd.fn_next with Some x -> int_of_nat x | None -> -1) (if nd.fn_mark then 1 else 0))) (ffree s);
   Buffer.contents b
 
 let pc_name = function
@@ -85,7 +87,7 @@ let grant s t =
          | QAtUnlinkCas _, QFindStart _ -> bump "unlink_cas_failed"
          | QAtUnlinkCas _, _ -> bump "unlink_cas_ok"
          | QFindCheck _, QFindStart _ -> bump "find_restart"
-         | QIdle, QAtHash (CPia _ | CPut _) -> if List.length s.fs_free > List.length s'.fs_free then bump "node_recycled"
+         | QIdle, QAtHash (CPia _ | CPut _) -> if s.fs_free <> N0 then bump "node_recycled"
          | _ -> ());
         (match fsp_kind (fpc_of s' t) with
          | Some k -> (s', int_of_nat k)
